@@ -30,6 +30,7 @@ import (
 	"github.com/lindb/lindb/kv/table"
 	"github.com/lindb/lindb/kv/version"
 	"github.com/lindb/lindb/pkg/timeutil"
+	"github.com/lindb/lindb/pkg/verifhook"
 )
 
 //go:generate mockgen -source ./family_rollup.go -destination=./family_rollup_mock.go -package kv
@@ -209,6 +210,7 @@ func (f *family) rollup() {
 					continue
 				}
 				targetFamiles[targetFamily] = files
+				verifhook.Yield("kv.rollup.afterTargetCommit")
 
 				// after rollup job successfully, need add delete rollup file edit log
 				for _, file := range files {
@@ -218,6 +220,7 @@ func (f *family) rollup() {
 
 			// finally, need commit edit log
 			f.commitEditLog(editLog)
+			verifhook.Yield("kv.rollup.afterSourceCommit")
 
 			// clean reference files from target file
 			for targetFamily, files := range targetFamiles {
